@@ -247,7 +247,7 @@ class Histories:
 STATE_FILES = ["bip32.py", "base_wallet.py", "paper_wallet.py", "bip85.py", "wallet_utils.py"]
 
 
-TOPS = ["ckd0", "ckd1", "ckd2", "bpA", "bpB", "children", "gen", "xkeys", "wif0", "wif1", "hex", "wasabi", "p2wpkh", "p2sh_p2wsh", "p2pkh0", "p2pkh1",
+TOPS = ["ckd0", "ckd1", "ckd2", "bpA", "bpB", "bpDeep", "bpDeep2", "children", "gen", "xkeys", "wif0", "wif1", "hex", "wasabi", "p2wpkh", "p2sh_p2wsh", "p2pkh0", "p2pkh1",
         "generate", "wifnode", "xprvnode", "parsexpub", "h_bech32", "h_b58", "h_script", "h_wif", "h_varint"]
 
 
@@ -275,6 +275,7 @@ def harness(name):
         B = {
             "ckd0": lambda: c(master.ckd(0)), "ckd1": lambda: c(master.ckd(1)), "ckd2": lambda: c(master.ckd(2)),
             "bpA": lambda: c(w.by_path("m/0/1")), "bpB": lambda: c(w.by_path("m/1/0")),
+            "bpDeep": lambda: c(w.by_path("m/0/1/2/3/4/5'/6")), "bpDeep2": lambda: c(w.by_path("m/1/1/2/3/4/7/8'")),
             "children": lambda: [c(x) for x in m0.generate_children((0, 2))],
             "gen": gen_body,
             "xkeys": lambda: w.node_extended_keys(acct),
@@ -390,6 +391,10 @@ def expected_op(op):
         return rc([0, 1]), [0]
     if op == "bpB":
         return rc([1, 0]), [1]
+    if op == "bpDeep":
+        return rc([0, 1, 2, 3, 4, H + 5, 6]), [0]
+    if op == "bpDeep2":
+        return rc([1, 1, 2, 3, 4, 7, H + 8]), [1]
     if op == "children":
         return [rc([0, 0]), rc([0, 1])], []
     if op == "gen":
@@ -599,7 +604,7 @@ def plan_for(thorough):
     for i, a in enumerate(b85):
         for b in b85[i:]:
             pairs.append((a, b))
-    pairs += [("xkeys", "xkeys"), ("xkeys", "ckd0"), ("wif0", "bpA"), ("wasabi", "bpA"), ("wasabi", "wif0")]
+    pairs += [("xkeys", "xkeys"), ("xkeys", "ckd0"), ("wif0", "bpA"), ("wasabi", "bpA"), ("wasabi", "wif0"), ("bpDeep", "bpB"), ("bpDeep", "bpDeep2")]
     if thorough:
         state_ops = [o for o in TOPS if o not in ("p2wpkh", "p2sh_p2wsh", "p2pkh0", "p2pkh1", "generate", "ckd2", "wifnode", "xprvnode", "parsexpub")
                      and not o.startswith("h_")]
@@ -633,6 +638,13 @@ def run(ctx):
         depth = 3
     bfs(ctx, "api-call-histories", Histories(ops), depth, chunk=8)
     bfs(ctx, "api-call-histories-testnet", Histories(ops, testnet=True), 3 if ctx.thorough else 2, chunk=8)
+    from ..bfs import long_histories
+    cheap = [o for o in OPS if o[0] != "generate"]
+    long_histories(ctx, "api-call-histories+long", Histories(cheap), rotations=len(cheap) if ctx.thorough else 4, rounds=2, ops=cheap)
+    from ..bfs import eviction_probe
+    sizes = (1, 2, 3, 4, 5, 8, 9, 16, 17, 20, 21, 32, 33) + ((64, 65) if ctx.thorough else ())
+    eviction_probe(ctx, "api-call-histories+ckd-revisits", Histories(OPS), lambda i: ["ckd", i if i % 2 == 0 else H + i], sizes=sizes)
+    eviction_probe(ctx, "api-call-histories+by_path-revisits", Histories(OPS), lambda i: ["by_path", "m/0/%d" % i], sizes=sizes)
     if ctx.thorough:
         # depth 4 on the sub-alphabet that touches shared mutable objects (children lists, generators, bip85)
         sub = [o for o in OPS if o[0] in ("by_path", "ckd", "children", "genA", "genB", "bip85wif", "addr")][:11]
